@@ -13,7 +13,7 @@ package testonly
 //@ pure func inTO(pass *analysis.Pass, ann *annotations.PackageAnnotations, fd *ast.FuncDecl) bool = (fd.Recv != nil && len(fd.Recv.List) > 0) ? toMethDeclared(pass, ann, pass.Pkg.Path(), recvTypeName(fd.Recv.List[0].Type), fd.Name.Name) : toFuncDeclared(pass, ann, pass.Pkg.Path(), fd.Name.Name, fd.Name.Name)
 
 //@ func isInTestOnlyContext
-//@   props C03 C10 C12
+//@   props C03 C10 C12 C13
 //@   ghostparam packageAnnotations *annotations.PackageAnnotations
 //@   nilable currentFunc
 //@   requires toCtxOK(ctx, packageAnnotations)
@@ -26,7 +26,7 @@ package testonly
 //@ pure func selHit(pass *analysis.Pass, ann *annotations.PackageAnnotations, sel *ast.SelectorExpr, code string) bool = (typeis(sel.X, *ast.Ident) && pass.TypesInfo.Uses[cast(sel.X, *ast.Ident)] != nil && typeis(pass.TypesInfo.Uses[cast(sel.X, *ast.Ident)], *types.PkgName)) ? (toFuncDeclared(pass, ann, cast(pass.TypesInfo.Uses[cast(sel.X, *ast.Ident)], *types.PkgName).Imported().Path(), sel.Sel.Name, sel.Sel.Name) && code == "TONL02") : (isDef(pass.TypesInfo.TypeOf(sel.X)) && toMethDeclared(pass, ann, defPkg(pass.TypesInfo.TypeOf(sel.X)), defName(pass.TypesInfo.TypeOf(sel.X)), sel.Sel.Name) && code == "TONL03")
 
 //@ func findFunctionCallViolation
-//@   props C03 C13 C10 C12
+//@   props C03 C13 C10 C12 C07 C08
 //@   ghostparam packageAnnotations *annotations.PackageAnnotations
 //@   requires toCtxOK(ctx, packageAnnotations)
 //@   fresh
@@ -38,7 +38,7 @@ package testonly
 //@ pure func typeHit(pass *analysis.Pass, ann *annotations.PackageAnnotations, T types.Type) bool = isDef(T) && toTypeDeclared(pass, ann, defPkg(T), defName(T))
 
 //@ func findTypeLiteralViolation
-//@   props C03 C13 C10 C12
+//@   props C03 C13 C10 C12 C07 C08
 //@   ghostparam packageAnnotations *annotations.PackageAnnotations
 //@   requires toCtxOK(ctx, packageAnnotations)
 //@   fresh
@@ -47,7 +47,7 @@ package testonly
 //@   assigns nothing
 
 //@ func findTypeUsageViolation
-//@   props C03 C13 C10 C12
+//@   props C03 C13 C10 C12 C07 C08
 //@   ghostparam packageAnnotations *annotations.PackageAnnotations
 //@   requires toCtxOK(ctx, packageAnnotations)
 //@   fresh
